@@ -609,6 +609,31 @@ func r6ProducerBody(c *RuleCtx, fn *ssa.Function, props []string, name string, a
 			}
 		}
 	}
+	// alternatives: two steps in the function's own body that no path can both pass (the two arms of
+	// `if lone segment { cr.Write(sb.mem) } else { mergeToWriter(...) }`) are one step done one way or the other
+	for i := 0; i < len(roles); i++ {
+		for j := i + 1; j < len(roles); j++ {
+			ri, rj := roles[i], roles[j]
+			excl := true
+			for _, a := range ri.sites {
+				for _, b := range rj.sites {
+					if a.Parent() != fn || b.Parent() != fn || a.Block() == b.Block() || reachesBlock(a.Block(), b.Block()) || reachesBlock(b.Block(), a.Block()) {
+						excl = false
+					}
+				}
+			}
+			if !excl {
+				continue
+			}
+			ri.name += "|" + rj.name
+			ri.sites = append(ri.sites, rj.sites...)
+			for _, b := range rj.sites {
+				roleOf[b] = ri
+			}
+			roles = append(roles[:j], roles[j+1:]...)
+			j--
+		}
+	}
 	// a bufio.Writer around the file must be flushed
 	hasBufio := false
 	eachInstr(fn, func(_ *ssa.BasicBlock, in ssa.Instruction) {
